@@ -14,11 +14,15 @@ LEVEL_TEXT = ("Bounded contract on the real Pipeline.subpipeline / map(output_na
               "every non-empty set S of requested outputs and every cut I (root-only, interior-only, mixed) from which "
               "S is computable, the call must succeed, return for each output in S the value of the reference "
               "evaluator with the provided intermediates substituted, and invoke exactly the functions on a dependency "
-              "path to S not cut off by I; when S is not computable from I the request must be rejected. The graph "
-              "surgery uses networkx and Pipeline.copy/drop: no obligation is counted as proved ('exploration').")
+              "path to S not cut off by I; when S is not computable from I the request must be rejected; the same for "
+              "map programs with a supplied intermediate array. Proved part (pyvc): _validate_complete_inputs, the "
+              "map-level decision 'every root argument of the (sub)pipeline has an input or a default, nothing else "
+              "is given'. The graph surgery uses networkx and Pipeline.copy/drop, so the property is decided on the "
+              "bounded rung ('exploration').")
 LEVEL_NOTE = ("Bounds: DAGs of 1..4 functions over roots {x,y,z}; I contains exactly the needed names (surplus inputs are "
               "C12's business). Trusted: reference evaluator rtc/dag.py.")
-TECHNIQUE = "bounded contract checking of output selection against a reference evaluator (no deductive part)"
+TECHNIQUE = ("bounded contract checking of output selection against a reference evaluator; _validate_complete_inputs "
+             "discharged by z3")
 EXPLANATION = LEVEL_TEXT
 RULE = ("random DAG x all non-empty S (|S|<=2) x sampled cuts I; distinct = distinct (DAG, S, I, entry point); "
         "non-trivial = S does not need every function or I contains an intermediate")
@@ -27,11 +31,15 @@ ASSUMPTIONS = ["user functions deterministic"]
 
 
 def registry():
-    return {}
+    from contracts import misc
+    return {**{c.short: c for c in misc.ALL}, **{c.name: c for c in misc.ALL}}
 
 
 def proof_items():
-    return []
+    from contracts import misc
+    from vf.driver import ProofItem
+    # "rejected with an error naming what is missing": the map-level check of the provided names
+    return [ProofItem(misc.validate_complete_inputs, gen=misc.vci_gen)]
 
 
 def needed_funcs(d, S, I):
